@@ -73,8 +73,10 @@ def focus_for(prop):
                 sc['cancel'] = {'kind': 'shutdown', 'msg': rng.choice(['', 'bye']), 'after_steps': rng.choice([0, 2, 10, 40])}
             elif r < 0.85:
                 sc['cancel'] = {'kind': 'exit-exc', 'exc': rng.choice(['value', 'interrupt', 'empty-msg']), 'after_steps': rng.choice([0, 2, 10, 40])}
-            else:
+            elif r < 0.93:
                 sc['cancel'] = {'kind': 'interrupt-result', 'nth_wait': rng.choice([0, 0, 1])}
+            else:
+                sc['cancel'] = {'kind': 'interrupt-exit', 'how': rng.choice(['with', 'with', 'shutdown']), 'nth_wait': rng.choice([0, 0, 1])}
         if rng.random() < 0.3:
             # a slow file-system call / stream write / request while the cancel arrives
             sc['mode'] = 'stall'
@@ -108,6 +110,18 @@ def focus_for(prop):
         if rng.random() < 0.6:
             sc['faults'] = []
             sc['cancel'] = None
+        if rng.random() < 0.3:
+            # many small stream uploads (single PutObject each) sharing one manager while the request stage is slow
+            thr = rng.choice([6, 9, 50])
+            sc['cfg'].update(multipart_threshold=thr, max_in_memory_upload_chunks=1, max_submission_concurrency=rng.choice([1, 1, 2]),
+                             max_request_concurrency=1, max_request_queue_size=3, max_submission_queue_size=3)
+            sc['transfers'] = [{'kind': 'upload', 'size': rng.randrange(1, min(thr, 6)), 'source': 'nonseekable', 'rewinds': 0,
+                                'sign_reads': False, 'subscribers': []} for _ in range(rng.randrange(3, 6))]
+            sc['faults'] = []
+            sc['cancel'] = None
+            sc.pop('early_shutdown', None)
+            sc['mode'] = 'stall'
+            sc['stall'] = {'class': rng.choice(['req-begin', 'upload-body-read', 'req-end']), 'nth': 0, 'len': 400}
 
     def callbacks(sc, rng):
         # several requests of one transfer in flight when it fails or is cancelled, a subscriber watching
@@ -122,6 +136,21 @@ def focus_for(prop):
             sc['faults'].append({'site': 'req', 'op': rng.choice(['upload_part', 'upload_part_copy']),
                                  'nth': rng.choice([0, 1, 1, 2]), 'when': rng.choice(['before', 'after'])})
 
+    def progress(sc, rng):
+        # several parts of one successful transfer reporting progress at the same time
+        multipart(sc, rng)
+        for t in sc['transfers']:
+            if not t['subscribers'] or any(s.get('raise_in') for s in t['subscribers']):
+                t['subscribers'] = [{'id': 0}]
+        sc['cfg']['max_request_concurrency'] = rng.choice([2, 3])
+        sc['cfg']['max_request_queue_size'] = rng.choice([2, 3])
+        if rng.random() < 0.8:
+            sc['faults'] = []
+            sc['cancel'] = None
+        if rng.random() < 0.4:
+            sc['mode'] = 'stall'
+            sc['stall'] = {'class': 'cb', 'nth': rng.choice([0, 0, 1, 2]), 'len': rng.choice([15, 40, 100])}
+
     def barrier(sc, rng):
         # shutdown() without cancel entered while several transfers are in flight, some failing
         if sc['cancel'] is None or rng.random() < 0.5:
@@ -130,7 +159,7 @@ def focus_for(prop):
             sc['fresh_after'] = False
 
     return {'C03': None, 'C04': reentrant, 'C05': multipart, 'C06': downloads, 'C07': cancels, 'C08': callbacks,
-            'C09': None, 'C10': streams, 'C11': streams, 'C12': None, 'C18': barrier, 'C01': multipart, 'C02': downloads}.get(prop)
+            'C09': progress, 'C10': streams, 'C11': streams, 'C12': None, 'C18': barrier, 'C01': multipart, 'C02': downloads}.get(prop)
 
 
 def _worker(args):
@@ -164,6 +193,8 @@ def _worker(args):
             wit['scenario_index'] = start + i
             wit['schedule'] = run.sch.choices[:600]
             out['violations'].append((sig, wit, what))
+        if len(out['violations']) >= 40:
+            break           # a failing check does bounded work
         if out['sample'] is None and interesting:
             out['sample'] = {'scenario': json.loads(json.dumps(sc, default=str)), 'steps': run.sch.steps,
                              'outcomes': {str(k): v[0] for k, v in run.outcomes.items()}}
